@@ -174,7 +174,8 @@ Proof.
   pose proof (eq_xo_fields _ _ X1) as (_ & _ & _ & _ & F5 & F6 & F7 & _).
   destruct pls as [|p pls].
   - inv H; constructor; [apply mon_xo; auto|discriminate].
-  - inv H; constructor.
+  - destruct (broken s2); [inv H; constructor; [apply mon_xo; auto|discriminate]|].
+    inv H; constructor.
     + eapply mon_run_app_some; [apply mon_xo; eauto|]. simpl. rewrite F7, N. simpl.
       replace (1 <=? Z.max 1 (c_max c)) with true by (symmetry; apply Z.leb_le; lia). reflexivity.
     + intros _; split; simpl; [lia|]. destruct E as [E1 E2]. repeat split; auto; try lia. apply incl_refl.
@@ -233,16 +234,35 @@ Proof.
     apply H2. apply in_or_app; auto.
 Qed.
 
+(* the answered and failed payloads of a result are distinct payloads of the request (in or out of the contract) *)
+Definition resp_in (cur : list tp) (v : value) : bool :=
+  match v with
+  | VResp rs => let r := map (fun e => fst (fst e)) rs in nodup_tp r && subset_tp r cur
+  | VFailed rs fs => let r := map (fun e => fst (fst e)) rs in nodup_tp (r ++ map fst fs) && subset_tp (r ++ map fst fs) cur
+  | _ => true
+  end.
+Lemma result_ok_in : forall c cur v, result_ok c cur v = true -> resp_in cur v = true.
+Proof.
+  intros c cur v H. destruct v; simpl in *; auto.
+  - apply andb_true_iff in H as [H _]. apply andb_true_iff in H as [H S1]. apply andb_true_iff in H as [_ ND]. rewrite ND, S1; auto.
+  - apply andb_true_iff in H as [H _]. apply andb_true_iff in H as [H S1]. apply andb_true_iff in H as [_ ND]. rewrite ND, S1; auto.
+Qed.
+Lemma omit_ok_in : forall c cur v, omit_ok c cur v = true -> resp_in cur v = true.
+Proof.
+  intros c cur v H. destruct v; simpl in *; try discriminate.
+  - apply andb_true_iff in H as [H _]. apply andb_true_iff in H as [H S1]. apply andb_true_iff in H as [_ ND]. rewrite ND, S1; auto.
+  - apply andb_true_iff in H as [H _]. apply andb_true_iff in H as [H S1]. apply andb_true_iff in H as [_ ND]. rewrite ND, S1; auto.
+Qed.
+
 Lemma handle_result_rstep : forall c s pls cur v s1 o1 done,
   pls_wf pls -> NoDup cur -> incl cur (map p_tp pls) -> 1 <= nsp s <= attempts s ->
-  result_ok c cur v = true \/ (exists k, v = VOther k) ->
+  resp_in cur v = true ->
   handle_result c s pls cur v = (s1, o1, done) -> rstep c s s1 o1 done.
 Proof.
   unfold handle_result; intros c s pls cur v s1 o1 done W N I A OK H. destruct v.
   - destruct (deliver s (all_sends pls) _) as [s2 o2] eqn:E. apply deliver_xo in E as [E1 E2].
     inv H; constructor; [apply mon_xo; auto|discriminate].
-  - destruct OK as [OK|[k OK]]; [|discriminate]. simpl in OK.
-    apply andb_true_iff in OK as [OK S2]. apply andb_true_iff in OK as [OK S1]. apply andb_true_iff in OK as [_ ND].
+  - simpl in OK. apply andb_true_iff in OK as [ND S1].
     apply nodup_tp_NoDup in ND. apply subset_tp_incl in S1.
     destruct (process_resps s pls rs) as [[s2 o2] f2] eqn:E. pose proof (process_resps_xo _ _ _ _ _ _ E) as [E1 E2].
     apply process_resps_fl in E as [F1 F2].
@@ -253,8 +273,7 @@ Proof.
       apply check_retry_rstep in E3; auto; try lia.
       * destruct E3 as [M P]. constructor; auto. eapply mon_run_app_some; [apply mon_xo; eauto|exact M].
       * eapply incl_tran; [exact F1|]. eapply incl_tran; [exact S1|exact I].
-  - destruct OK as [OK|[k OK]]; [|discriminate]. simpl in OK.
-    apply andb_true_iff in OK as [OK _]. apply andb_true_iff in OK as [OK S1]. apply andb_true_iff in OK as [_ ND].
+  - simpl in OK. apply andb_true_iff in OK as [ND S1].
     apply nodup_tp_NoDup in ND. apply subset_tp_incl in S1.
     destruct (if c_acks c =? 0 then _ else _) as [s0 o0] eqn:E0.
     assert (A0 : eq_xo s s0 /\ only_outcomes o0).
@@ -338,7 +357,10 @@ Proof.
       destruct (lookups_progress s2 reqs ls2) as [[s3 o3] d3] eqn:E3. unfold fin_if in H. inv H.
       right; split; [discriminate|]. exists d3; split; auto.
       eapply rstep_seq; [exact E|]. eapply lookups_progress_rstep; [| | |exact E3]; auto; lia.
-    + destruct (tid0 =? tid); [|inv H; left; auto]. inv H. destruct P as (W & N & I & B & C).
+    + destruct (tid0 =? tid); [|inv H; left; auto]. destruct P as (W & N & I & B & C).
+      destruct (broken s).
+      { inv H. right; split; [discriminate|]. exists true; split; auto. constructor; [reflexivity|discriminate]. }
+      inv H.
       right; split; [discriminate|]. exists false; split; auto. constructor.
       * simpl. rewrite Z.eqb_refl. simpl.
         replace (nsp s + 1 <=? Z.max 1 (c_max c)) with true by (symmetry; apply Z.leb_le; lia). reflexivity.
@@ -359,7 +381,13 @@ Proof.
     destruct (result_ok c cur v) eqn:OK; [|inv H; left; auto].
     destruct (handle_result c s pls cur v) as [[s2 o2] d2] eqn:E. unfold fin_if in H. inv H.
     right; split; [discriminate|]. exists d2; split; auto.
-    eapply handle_result_rstep; [exact W|exact N|exact I|exact B|left; exact OK|exact E].
+    eapply handle_result_rstep; [exact W|exact N|exact I|exact B|eapply result_ok_in; exact OK|exact E].
+  - (* EResultOmit *)
+    destruct (ph s) eqn:Ph; try (inv H; left; auto; fail). destruct P as (W & N & I & B & C).
+    destruct (omit_ok c cur v) eqn:OK; [|inv H; left; auto].
+    destruct (handle_result c s pls cur v) as [[s2 o2] d2] eqn:E. unfold fin_if in H. inv H.
+    right; split; [discriminate|]. exists d2; split; auto.
+    eapply handle_result_rstep; [exact W|exact N|exact I|exact B|eapply omit_ok_in; exact OK|exact E].
 Qed.
 
 Lemma cancel_batch_mon : forall c s cv s1 o1 done, PInv c s -> ph s <> Idle ->
@@ -380,7 +408,7 @@ Proof.
     eapply mon_run_app_some; [exact E|]. eapply lookups_progress_rstep with (c := c) in E3; auto; try lia. apply E3.
   - apply version_failed_rstep with (c := c) in H. apply H.
   - destruct P as (W & N & I & B & C). eapply handle_result_rstep with (c := c) in H; eauto; [apply H|].
-    destruct cv as [v|]; [destruct (result_ok c cur v) eqn:OK; [left; auto|right; eauto]|right; eauto].
+    destruct cv as [v|]; [destruct (result_ok c cur v) eqn:OK; [eapply result_ok_in; eauto|reflexivity]|reflexivity].
   - destruct (deliver s (all_sends pls) _) as [s2 o2] eqn:E. apply deliver_xo in E as [E1 E2]. inv H.
     simpl. apply mon_xo; auto.
 Qed.
@@ -471,7 +499,7 @@ Proof.
         try apply (i_onodup _ _ IB); try apply (i_bnodup _ _ IB).
       + destruct RS as [M Pp]. simpl in M. destruct done; [discriminate|]. simpl in A. inv A. split; auto.
       + assert (done' = done) by (destruct done, done'; auto; discriminate). subst done'.
-        pose proof (bs_keeps _ _ _ _ _ BS) as [K1 _ _ _ _ _].
+        pose proof (bs_keeps _ _ _ _ _ BS) as [K1 _ _ _ _ _ _].
         replace (mon_of s) with (mfl s) by (unfold mon_of; destruct (ph s); auto; congruence).
         destruct RS as [M Pp]. destruct done; simpl in A.
         * apply finish_c09 in A; [|rewrite K1; apply (i_qsorted _ _ IB)]. destruct A as [A1 A2]. split; auto.
@@ -514,6 +542,10 @@ Proof.
     destruct (NS ltac:(intros ? X; discriminate X)) as (s1 & o1 & ep & o2 & C & A & ->). cbn [core] in C.
     inv C. simpl in A. inv A. split; [eapply PInv_same; eauto; reflexivity|].
     mon_same.
+  - (* EBroken *)
+    destruct (NS ltac:(intros ? X; discriminate X)) as (s1 & o1 & ep & o2 & C & A & ->). cbn [core] in C.
+    inv C. simpl in A. inv A. split; [eapply PInv_same; eauto; reflexivity|].
+    mon_same.
   - (* EStop *)
     unfold step in H. set (s0 := set_flags s true (looper s)) in *.
     assert (P0 : PInv c s0) by (eapply PInv_same; eauto; reflexivity).
@@ -526,7 +558,7 @@ Proof.
         exists s0, []. simpl. rewrite M0. auto.
       - pose proof (cancel_batch_done c s0 cv _ _ _ (eq_refl : stopping s0 = true) PW Pi E) as ->.
         pose proof (cancel_batch_mon _ _ _ _ _ _ P0 Pi E) as M.
-        apply cancel_batch_ok in E. destruct E as [[K1 _ _ _ _ _] _ _].
+        apply cancel_batch_ok in E. destruct E as [[K1 _ _ _ _ _ _] _ _].
         destruct (apply_epi c s1 Fin) as [s2 o2] eqn:A. exists s2, o2. split; auto. simpl in A.
         apply finish_c09 in A; [|rewrite K1; apply (i_qsorted _ _ IB)]. destruct A as [A1 A2]. split; auto.
         rewrite <- M0. replace (mon_of s0) with (mfl s0) by (unfold mon_of; destruct (ph s0) eqn:Q; auto; exfalso; apply Pi; exact Q).
@@ -691,13 +723,13 @@ Proof.
 Qed.
 
 Lemma handle_result_retry : forall c s pls cur v s1 o1,
-  result_ok c cur v = true -> handle_result c s pls cur v = (s1, o1, false) ->
+  resp_in cur v = true -> handle_result c s pls cur v = (s1, o1, false) ->
   exists cur' tid, ph s1 = RetryWait pls cur' tid /\ incl cur' cur /\
                    forall x off, In (x, 0, off) (resps_of v) -> ~ In x cur'.
 Proof.
   unfold handle_result; intros c s pls cur v s1 o1 OK H. destruct v.
   - destruct (deliver s (all_sends pls) _); inv H.
-  - simpl in OK. apply andb_true_iff in OK as [OK S2]. apply andb_true_iff in OK as [OK S1]. apply andb_true_iff in OK as [_ ND].
+  - simpl in OK. apply andb_true_iff in OK as [ND S1].
     apply nodup_tp_NoDup in ND. apply subset_tp_incl in S1.
     destruct (process_resps s pls rs) as [[s2 o2] f2] eqn:E.
     pose proof (process_resps_fl _ _ _ _ _ _ E) as [F1 _]. pose proof (process_resps_fl_err _ _ _ _ _ _ E) as F3.
@@ -706,7 +738,7 @@ Proof.
     apply check_retry_phase in E3 as [tid E3]. eexists; exists tid. split; [exact E3|]. split.
     + eapply incl_tran; [exact F1|exact S1].
     + simpl. intros x off Hx Hc. destruct (F3 _ Hc) as (e & o & A & B). apply B. eapply nodup_fst_unique; eauto.
-  - simpl in OK. apply andb_true_iff in OK as [OK _]. apply andb_true_iff in OK as [OK S1]. apply andb_true_iff in OK as [_ ND].
+  - simpl in OK. apply andb_true_iff in OK as [ND S1].
     apply nodup_tp_NoDup in ND. apply subset_tp_incl in S1.
     destruct (if c_acks c =? 0 then _ else _) as [s0 o0].
     destruct (process_resps s0 pls rs) as [[s2 o2] f2] eqn:E.
@@ -739,14 +771,15 @@ Proof.
   destruct done; simpl in H.
   - left. unfold finish, finish0 in H. destruct (check_send_batch c _) as [s2 o2]. inv H.
     apply in_or_app; right; left; reflexivity.
-  - inv H. right. eapply handle_result_retry; eauto.
+  - inv H. right. eapply handle_result_retry; eauto. eapply result_ok_in; eauto.
 Qed.
 
-Theorem retry_resends : forall c s pls cur tid s' out, ph s = RetryWait pls cur tid -> step c s (ETimer tid) = (s', out) ->
+Theorem retry_resends : forall c s pls cur tid s' out, ph s = RetryWait pls cur tid -> broken s = false ->
+  step c s (ETimer tid) = (s', out) ->
   out = [OSendProduce (nsp s + 1) (magic_of s) (map payload_view (filter (fun p => tpmem (p_tp p) cur) pls))] /\
   ph s' = Sending pls cur.
 Proof.
-  intros c s pls cur tid s' out P H. unfold step in H. cbn [core] in H. rewrite P, Z.eqb_refl in H. simpl in H. inv H. auto.
+  intros c s pls cur tid s' out P B H. unfold step in H. cbn [core] in H. rewrite P, Z.eqb_refl, B in H. simpl in H. inv H. auto.
 Qed.
 
 (* an acknowledged payload is reported in the same step: none of its requests is outstanding afterwards *)
@@ -856,7 +889,8 @@ Proof.
   destruct (stopping s); [inv H; left; apply no_sp_nil|].
   destruct (api s =? 0); [inv H; left; intros a m v [X|[]]; discriminate|].
   destruct (group_requests s reqs res []) as [[s2 o2] pls] eqn:E. apply group_requests_xo in E as [_ X2].
-  destruct pls as [|p pls]; inv H; [left; apply no_sp_outcomes; auto|].
+  destruct pls as [|p pls]; [inv H; left; apply no_sp_outcomes; auto|].
+  destruct (broken s2); inv H; [left; apply no_sp_outcomes; auto|].
   right; split; auto. right. exists o2, 1, (magic_of s2), (p :: pls), (map p_tp (p :: pls)).
   split; [unfold viewf; rewrite filter_all_tps; reflexivity|]. split; [apply no_sp_outcomes; auto|]. split; reflexivity.
 Qed.
@@ -913,7 +947,8 @@ Proof.
       destruct (lookups_progress s2 reqs ls2) as [[s3 o3] d3] eqn:E3. unfold fin_if in H. inv H.
       apply lookups_progress_sp in E3 as [X|[-> X]]; [left; apply no_sp_app; auto; apply no_sp_lk; auto|].
       right; split; auto. apply sp_ok_app_l; auto. apply no_sp_lk; auto.
-    + destruct (tid0 =? tid); [|inv H; left; apply no_sp_nil]. inv H. right; split; auto.
+    + destruct (tid0 =? tid); [|inv H; left; apply no_sp_nil]. destruct (broken s); inv H; [left; apply no_sp_nil|].
+      right; split; auto.
       right. exists [], (nsp s + 1), (magic_of s), pls, cur. split; [reflexivity|]. split; [apply no_sp_nil|]. split; reflexivity.
   - destruct (ph s) eqn:P; try (inv H; left; apply no_sp_nil; fail).
     destruct (r =? 0); [|destruct (r =? 1)].
@@ -925,6 +960,10 @@ Proof.
       left. apply no_sp_outcomes. eapply deliver_xo; eauto.
   - destruct (ph s) eqn:P; try (inv H; left; apply no_sp_nil; fail).
     destruct (result_ok c cur v); [|inv H; left; apply no_sp_nil].
+    destruct (handle_result c s pls cur v) as [[s2 o2] d2] eqn:E. unfold fin_if in H. inv H.
+    left. eapply handle_result_sp; eauto.
+  - destruct (ph s) eqn:P; try (inv H; left; apply no_sp_nil; fail).
+    destruct (omit_ok c cur v); [|inv H; left; apply no_sp_nil].
     destruct (handle_result c s pls cur v) as [[s2 o2] d2] eqn:E. unfold fin_if in H. inv H.
     left. eapply handle_result_sp; eauto.
 Qed.
@@ -989,6 +1028,8 @@ Proof.
     eapply Q; eauto. inv C. apply no_sp_nil.
   - destruct (NS ltac:(intros ? X; discriminate X)) as (s1 & o1 & ep & o2 & C & A & E). cbn [core] in C.
     eapply Q; eauto. inv C. apply no_sp_nil.
+  - destruct (NS ltac:(intros ? X; discriminate X)) as (s1 & o1 & ep & o2 & C & A & E). cbn [core] in C.
+    eapply Q; eauto. inv C. apply no_sp_nil.
   - (* stop: nothing is sent at all *)
     apply no_sp_ok. intros a m v X.
     unfold step in H. set (s0 := set_flags s true (looper s)) in *.
@@ -1010,7 +1051,7 @@ Proof.
       - destruct (deliver s0 (all_sends pls) _) eqn:D; inv E. intros a' m' v' [Y|Y]; [discriminate|].
         eapply no_sp_outcomes; [eapply deliver_xo; eauto|exact Y]. }
     assert (K : stopping s1 = true).
-    { apply cancel_batch_ok in E. destruct E as [[_ _ _ K _ _] _ _]. rewrite K. reflexivity. }
+    { apply cancel_batch_ok in E. destruct E as [[_ _ _ K _ _ _] _ _]. rewrite K. reflexivity. }
     unfold fin_if in H. destruct (apply_epi c s1 (if done then Fin else NoEpi)) as [s2 o2] eqn:A.
     assert (N2 : no_sp o2).
     { destruct done; simpl in A; [|inv A; apply no_sp_nil].
@@ -1184,7 +1225,7 @@ Proof.
       try apply (i_onodup _ _ IB); try apply (i_bnodup _ _ IB).
     { destruct done; [discriminate|]. simpl in A. inv A. split; [apply incl_refl|intros ? []]. }
     assert (done' = done) by (destruct done, done'; auto; discriminate). subst done'. clear X.
-    pose proof (bs_keeps _ _ _ _ _ BS) as [K1 _ _ _ _ _]. pose proof (bs_ng _ _ _ _ _ BS) as NG.
+    pose proof (bs_keeps _ _ _ _ _ BS) as [K1 _ _ _ _ _ _]. pose proof (bs_ng _ _ _ _ _ BS) as NG.
     destruct RS as [M Pp].
     (* first attempts among o1 come from the lookups of this batch *)
     assert (F1 : incl (first_wire o1) (pend s)).
@@ -1202,7 +1243,7 @@ Proof.
     destruct done; simpl in A.
     - pose proof (invB_bstep _ _ _ _ _ [] IB BS (incl_nil_l _) (NoDup_nil _)) as I2.
       unfold finish in A. destruct (finish0 s1) as [s3 o3] eqn:F. destruct (check_send_batch c s3) as [s4 o4] eqn:E. inv A.
-      destruct (finish0_inv _ _ _ _ I2 F) as (W3 & -> & [J1 _ _ _ _ _] & _ & P3).
+      destruct (finish0_inv _ _ _ _ I2 F) as (W3 & -> & [J1 _ _ _ _ _ _] & _ & P3).
       assert (Q : incl (ids (queue s3)) (pend s)) by (rewrite J1, K1; unfold pend; apply incl_appr, incl_refl).
       destruct (EP s3 Check o4 W3 E) as [[X Y]|[-> ->]].
       + split; [eapply incl_tran; eauto|]. rewrite !first_wire_app. simpl. apply incl_app; auto. eapply incl_tran; eauto.
@@ -1245,6 +1286,8 @@ Proof.
     + assert (Q : incl (ids (queue s1)) (pend s1)) by (unfold pend; apply incl_appr, incl_refl).
       split; eapply incl_tran; eauto.
     + split; [apply incl_refl|intros ? []].
+  - destruct (NS ltac:(intros ? X; discriminate X)) as (s1 & o1 & ep & o2 & C & A & ->). cbn [core] in C.
+    inv C. simpl in A. inv A. simpl. rewrite app_nil_r. split; [apply incl_refl|intros ? []].
   - destruct (NS ltac:(intros ? X; discriminate X)) as (s1 & o1 & ep & o2 & C & A & ->). cbn [core] in C.
     inv C. simpl in A. inv A. simpl. rewrite app_nil_r. split; [apply incl_refl|intros ? []].
   - destruct (NS ltac:(intros ? X; discriminate X)) as (s1 & o1 & ep & o2 & C & A & ->). cbn [core] in C.
